@@ -82,6 +82,10 @@ def expr_of_place(fn, p, depth=0, seen=None, at=None):
                 if cur.k == "agg" and cur.a == "tuple" and cur.c and nm.isdigit() and int(nm) < len(cur.c):
                     cur = cur.c[int(nm)]
                     continue
+                # captured variable i of a closure literal of this body (the receiver of a folded-in closure)
+                if cur.k == "agg" and cur.a == "closure" and cur.c is not None and "f" in pe and pe["f"] < len(cur.c):
+                    cur = cur.c[pe["f"]]
+                    continue
                 cur = E("field", cur, nm)
                 continue
             if "idx" in pe:
@@ -722,3 +726,39 @@ def cast_is_narrowing(fn, e):
     if sb is None:
         sb = 64
     return sb > tb
+
+
+def ok_capable_combos(fn, e, cap=24):
+    """For a returned expression that is a pure function of locals with several definitions (e.g.
+    `cond.then(..).ok_or_else(err)` after expansion: `ok_or_else(opt)` with opt defined as Some(..) in
+    one arm and None in the other): the combinations of definitions under which the value can be Ok.
+    Returns a list of lists of definition blocks (one list per Ok-capable combination); [[]] if the
+    expression does not depend on such locals or cannot be evaluated (no extra knowledge)."""
+    import itertools
+    phi = {"seen": {}, "choice": {}}
+    evaluate(e, {"__phi__": phi})
+    keys = []
+    for _ in range(3):
+        keys = sorted(phi["seen"])
+        if not keys:
+            return [[]]
+        n = 1
+        for k in keys:
+            n *= phi["seen"][k]
+        if n > cap or any(k[0] != fn.key for k in keys):
+            return [[]]
+        before = dict(phi["seen"])
+        for combo in itertools.product(*[range(phi["seen"][k]) for k in keys]):
+            phi["choice"] = dict(zip(keys, combo))
+            evaluate(e, {"__phi__": phi})
+        if phi["seen"] == before:
+            break
+    out = []
+    for combo in itertools.product(*[range(phi["seen"][k]) for k in keys]):
+        v = evaluate(e, {"__phi__": {"seen": {}, "choice": dict(zip(keys, combo))}})
+        if isinstance(v, tuple) and v[0] == "res" and v[1] == "Err":
+            continue
+        if v is UNK:
+            return [[]]
+        out.append([def_sites(fn, k[1])[i][0] for k, i in zip(keys, combo)])
+    return out
